@@ -138,6 +138,24 @@ func vrtAssume(ex *Exec, fn *ssa.Function, args []Value) []Value {
 func vrtAssert(ex *Exec, fn *ssa.Function, args []Value) []Value {
 	c := args[0].(*Term)
 	ex.asserts++
+	if !c.IsConst() && ex.frontier() && !ex.inMerge {
+		if _, dec := ex.quickDecide(c); !dec {
+			sh := ex.w.sh
+			if (c.h1^uint64(sh.seed))%8 == 0 {
+				sh.mu.Lock()
+				want := len(sh.xchecks) < 600
+				sh.mu.Unlock()
+				if want {
+					nc := ex.ts.BNot(c)
+					r := ex.w.solver.Check(ex.pc, nc)
+					x := xcheck{Script: Standalone(ex.pc, nc), Expect: r}
+					sh.mu.Lock()
+					sh.xchecks = append(sh.xchecks, x)
+					sh.mu.Unlock()
+				}
+			}
+		}
+	}
 	if !ex.branch(c) {
 		ex.reportViolation("assert", ex.label(args[1]), "")
 	}
